@@ -404,11 +404,107 @@ def lathe_rules(rep, prog):
             rep.violate("C15.D7", "D7|assert|%s" % path, fb.where(), "%s no longer rejects invalid parameters (%s) before building" % (path.split("lathe::")[1], what), config=cfg)
 
 
+REORDER = ("reverse", "rev", "sort", "sort_by", "sort_by_key", "sort_unstable", "sort_unstable_by", "sort_unstable_by_key", "sort_by_cached_key",
+           "swap", "rotate_left", "rotate_right", "retain", "dedup", "dedup_by", "dedup_by_key", "truncate", "remove", "insert", "drain",
+           "split_off", "pop", "swap_remove", "push", "extend", "clear")
+
+
+def profile_rules(rep, prog):
+    """L3: Lathe::build consumes the profile polyline exactly as given. The winding of every strip and both caps is fixed
+    relative to the ORDER of the profile points (bottom to top for the closed solids), so any reordering or editing of
+    `points` inside build() turns some solid inside-out; callers own the order.
+    L2: the cone's profile normal is perpendicular to its slant edge and leans outward, for every pair of radii."""
+    from . import symalg as S, absint as A
+    from fractions import Fraction
+    cfg = prog.config
+    b = prog.body(LATHE + "Lathe::build")
+    n = 0
+    for fb in prog.family(b.path):
+        sl = T.Slicer(fb)
+        for bi, t in fb.calls():
+            c = t.get("callee") or {}
+            last = c.get("path", "").rsplit("::", 1)[-1]
+            if not t["args"]:
+                continue
+            recv = T.strip(sl.operand(t["args"][0]), sites=True, refs=True)
+            if not T.contains(recv, lambda q: q[0] == "field" and q[2] == "Lathe.points"):
+                continue
+            n += 1
+            bad = last in REORDER
+            rep.inst("C15.L3", "Lathe::build uses the profile through `%s` at %s: %s" % (last, fb.where(bi, None), "REORDERS/EDITS" if bad else "order kept"), config=cfg)
+            if bad:
+                rep.violate("C15.L3", "L3|%s" % last, fb.where(bi, None),
+                            "Lathe::build applies `%s` to the profile points: strips and caps are wound relative to the given order, so a solid whose profile "
+                            "triggers it (e.g. a closed loop whose end differs from its start by rounding noise) comes out inside-out" % last, config=cfg)
+    rep.floor("C15.L3.%s" % cfg, n, 2, "uses of Lathe.points in Lathe::build")
+    # ---- L2
+    cb = prog.body(LATHE + "Cone::build")
+    cone = prog.adt(LATHE + "Cone")
+    fields = cone["variants"][0]["fields"]
+    vals = {"sectors": S.sym("sectors"), "segments": S.sym("segments"), "capped": A.UNKNOWN, "base_radius": S.sym("rb"), "apex_radius": S.sym("ra")}
+    me = ("adt", LATHE + "Cone", cone["variants"][0]["name"], [vals.get(f, A.UNKNOWN) for f in fields])
+
+    class Stop(Exception):
+        pass
+    got = {}
+
+    def m_map(it, args, callee, depth):
+        clo = A.deref_all(it, args[1])
+        if isinstance(clo, tuple) and clo[0] == "closure":
+            got["ups"] = [A.deref_all(it, u) for u in clo[2]]
+        raise Stop()
+
+    def m_abs(it, args, callee, depth):
+        return ("symop", "abs", A.deref_all(it, args[0]), None)
+    it = S.interp(prog, models={"core::iter::traits::iterator::Iterator::map": m_map, "f32>::abs": m_abs}, oracle=lambda op, a_, b_: True if op in ("Gt", "Ne") else None)
+    try:
+        it.call_body(cb, [me])
+        raise common.Infra("C15.L2: Cone::build no longer maps its profile points through a closure capturing the normal")
+    except Stop:
+        pass
+    except (A.Undecided, A.Panic) as e:
+        raise common.Infra("C15.L2: Cone::build could not be evaluated symbolically (%s)" % e)
+    vecs = [u for u in got.get("ups", []) if isinstance(u, tuple) and u[0] == "adt" and u[1].endswith("vec::Vector")]
+    if len(vecs) != 1:
+        raise common.Infra("C15.L2: the closure building the cone's profile vertices does not capture exactly one normal vector")
+    nx, ny = S.components(it, vecs[0])
+    # slant edge d = apex - base = (ra - rb, 2)
+    dotv = ("symop", "Add", ("symop", "Mul", nx, ("symop", "Sub", S.sym("ra"), S.sym("rb"))), ("symop", "Mul", ny, ("f", 2.0)))
+    ok = None
+    try:
+        ok = S.to_poly(dotv) == {}
+        opaque = any(sy.startswith("?") for mono in S.to_poly(dotv) for sy in mono)
+    except S.NotPolynomial:
+        ok, opaque = False, True
+    wit = None
+    if not ok:
+        for rb, ra in ((1.0, 0.0), (1.0, 1.0), (0.0, 1.0), (0.5, 3.0), (3.0, 0.5), (1.0, 4.0)):
+            try:
+                v = S.num_eval(dotv, {"ra": ra, "rb": rb, "sectors": 8.0, "segments": 2.0})
+                vx = S.num_eval(nx, {"ra": ra, "rb": rb})
+            except S.NotNumeric as e:
+                raise common.Infra("C15.L2: the cone normal has a form the rule cannot evaluate (%s)" % e)
+            if abs(v) > 1e-6 or vx <= 0:
+                wit = (rb, ra, v, vx)
+                break
+        if wit is None and opaque:
+            ok = True          # differs only formally (opaque function), equal at every probe: accept with a note
+            rep.notes.append("C15.L2: perpendicularity holds at the probe radii but not as a formal identity (opaque function in the normal)")
+        elif wit is None:
+            raise common.Infra("C15.L2: the cone normal is not formally perpendicular to the slant edge and no witness radii were found")
+    rep.inst("C15.L2", "Cone::build profile normal n = (%s, %s): n.(apex - base) = 0 for all radii: %s" % (S.fmt_trace([("Eq", nx, ny, True)])[3:-1], "", "holds" if ok else "FAILS"), config=cfg)
+    if not ok:
+        rep.violate("C15.L2", "L2|cone-normal", cb.where(),
+                    "Cone::build: the profile normal is not perpendicular to the slant edge (or does not lean outward) for base radius %s, apex radius %s: "
+                    "n.(apex - base) = %.3g, n.x = %.3g" % wit, config=cfg)
+
+
 def check_config(rep, prog):
     platonic_rules(rep, prog)
     normal_rules(rep, prog)
     build_rules(rep, prog)
     lathe_rules(rep, prog)
+    profile_rules(rep, prog)
 
 
 def check(rep, args):
@@ -422,7 +518,7 @@ def check(rep, args):
                        "strip/cap index-polynomial rules for the lathe family",
         "evaluations": len(rep.instances),
         "distinct_nontrivial": len({i["what"] for i in rep.instances}),
-        "rules": ["T2", "D6", "D7", "L1"],
+        "rules": ["T2", "D6", "D7", "L1", "L2", "L3"],
     }
     return "other", cov, ["lathe topology for every sector count, seam/pole handling and radii are not decided",
                           "Lerp::lerp(a,b,t) = a + t(b-a); normalize/to_pt/Neg have their documented meaning",
